@@ -516,6 +516,13 @@ def started_ok(res):
     return False
 
 
+class CalibStall(Exception):
+    """the sequential re-run found a running relay through which not even the first connection is established"""
+    def __init__(self, res):
+        Exception.__init__(self, "calibration stall")
+        self.res = res
+
+
 def calib_stalled(res):
     """the relay process was alive after the calibration connection through it had failed"""
     con = alive = False
@@ -717,14 +724,26 @@ def check(pid, tier, seed):
         x, f = hits[0]
         known.append("property=%s %s (%d executions in this run, e.g. %s)" % (pid, f["what"], len(hits), describe(firsts[x], *byx[x])[:300]))
     confirmed, unconfirmed = {}, {}
+    stalled_rerun = False
     for key in sorted(fresh):
+        if stalled_rerun:
+            break
         items = sorted(fresh[key], key=lambda t: (t[0], t[1]))
         ok = None
         tried = slow = 0
         for _, x, v in items[:4]:
             b, e = byx[x]
             tried += 1
-            rr = rerun(b, e, root, bins, T["limit"] * 2, "rerun_%d" % x)
+            try:
+                rr = rerun(b, e, root, bins, T["limit"] * 2, "rerun_%d" % x)
+            except CalibStall as cs:
+                rp = vlib.save_replay(pid, "calib_stall_rerun_%s_%s.script" % (b["a"], b["b"]),
+                                      "\n".join(cs.res["script"]) + "\n# " + "\n# ".join(cs.res["trace"][:4]) + "\n")
+                violations.append(("conformance", "C20.stall: in the sequential re-run of an execution on %s-%s (%s) the first connection "
+                                   "through the running relay was not established (three attempts on fresh addresses): %s"
+                                   % (b["a"], b["b"], b["var"], cs.res["trace"][1][:300] if len(cs.res["trace"]) > 1 else ""), rp))
+                stalled_rerun = True
+                break
             if rr["busy"].get(x, 0) > SLOW_MS:
                 slow += 1
                 continue
@@ -811,6 +830,8 @@ def rerun(batch, e, root, bins, limit, name):
         if res["rc"] != 2 and started_ok(res):
             break
     else:
+        if res["rc"] != 2 and calib_stalled(res):
+            raise CalibStall(res)
         raise InternalError("re-run could not be started: %s" % res["relay_out"][-1000:])
     vl, stat, _ = validate(res["trace"], name)
     firsts, _ = first_per_exec(vl)
